@@ -72,6 +72,22 @@ def closure_leaf():
     return g
 
 
+def _helper_a(x, y, z):
+    return V("ha", float(x[0]), float(y[0]), float(z[0]))
+
+
+def _helper_b(x, y, z):
+    return V("hb", float(x[0]), float(y[0]), float(z[0]))
+
+
+def leaf_a(x, y, z):
+    return _helper_a(x, y, z)
+
+
+def leaf_b(x, y, z):
+    return _helper_b(x, y, z)
+
+
 def leaves(L):
     P = L["Parameter"]
     return {
@@ -133,6 +149,16 @@ def run_induction(mutate=None):
     def body():
         P, C = L["Parameter"], L["CompositeParameter"]
         kinds = operand_kinds(L)
+        # equality is structural: two leaves whose functions have the same shape (same bytecode and constants) but call different
+        # functions are different parameters, and so is everything built from them
+        pa, pb = P(leaf_a), P(leaf_b)
+        try:
+            check("C16.eq_structural.leaves_that_differ_only_in_the_functions_they_call", z3.BoolVal((pa == pb) is False and (pa == P(leaf_a)) is True))
+            for (on, op) in OPS:
+                check(f"C16.eq_structural.composites_of_such_leaves[{on}]", z3.BoolVal((op(pa, 2.0) == op(pb, 2.0)) is False and (op(2.0, pa) == op(2.0, pb)) is False
+                                                                                      and (op(pa, 2.0) == op(P(leaf_a), 2.0)) is True))
+        except Exception as e:
+            check("C16.eq_structural.leaves_that_differ_only_in_the_functions_they_call", False, note=f"{type(e).__name__}: {e}")
         for (ln, lf), (rn, rf), (on, op) in itertools.product(kinds.items(), kinds.items(), OPS):
             if ln in ("int", "float") and rn in ("int", "float"):
                 continue
@@ -294,6 +320,16 @@ def replay(unit, obl):
         _ = p * 2
         return p
     mk["td_param_used_before"] = used
+    def na(x, y, z):
+        return np.sin(x) + y * z
+
+    def nb(x, y, z):
+        return np.cos(x) + y * z
+    if "differ_only" in name or "such_leaves" in name or not name:
+        A_, B_ = Parameter(na), Parameter(nb)
+        if A_ == B_ or (A_ * 2.0) == (B_ * 2.0) or (2.0 - A_) == (2.0 - B_):
+            problems.append("Parameter(f) == Parameter(g) for f, g with the same bytecode shape that call np.sin / np.cos (values differ: "
+                            f"{float(np.squeeze(A_(0.3, 0.1, 0.2)))} vs {float(np.squeeze(B_(0.3, 0.1, 0.2)))})")
     import re
     m = re.search(r"\[(\w+) (\w+) (\w+)\]", name)
     combos = [(m.group(1), m.group(2), m.group(3))] if m and m.group(1) in mk and m.group(3) in mk else [(a, o, b) for a in mk for o, _ in OPS for b in mk]
